@@ -103,6 +103,58 @@ Definition explode_fn (s delim : str) (position limit : Z) : str :=
   if ((pos <? 0)%Z || (Z.of_nat (length parts) <=? pos)%Z)%bool then []
   else nth (Z.to_nat pos) parts [].
 
+(** * the comparison of #ifeq and #switch (parserfns.py: mw_equal): two trimmed strings that both are numbers -
+    [+-]? (digits [. digits] | . digits) ([eE] [+-]? digits)? - are compared numerically, anything else as text.
+    Numbers are compared exactly here (mantissa and decimal exponent); the code compares integers exactly and other
+    numbers as floats, which is the same up to about 15 significant digits and exponents within the float range. *)
+Fixpoint take_digits (s : str) : str * str :=
+  match s with
+  | c :: r => if is_digit c then let (d, rest) := take_digits r in (c :: d, rest) else ([], s)
+  | [] => ([], [])
+  end.
+Fixpoint digits_val (s : str) (acc : N) : N :=
+  match s with [] => acc | c :: r => digits_val r (10 * acc + (c - 48)) end.
+Definition take_sign (s : str) : bool * str :=
+  match s with
+  | 45 :: r => (true, r)
+  | 43 :: r => (false, r)
+  | _ => (false, s)
+  end.
+Record number := mknumber { num_neg : bool; num_mant : N; num_exp : Z }.      (* (-1)^neg * mant * 10^exp *)
+Definition parse_number (s : str) : option number :=
+  let (neg, s1) := take_sign s in
+  let (d1, s2) := take_digits s1 in
+  let '(d2, has_dot, s3) := match s2 with
+                            | 46 :: r => let (d, rest) := take_digits r in (d, true, rest)
+                            | _ => ([], false, s2)
+                            end in
+  if (match d1 with [] => negb has_dot || match d2 with [] => true | _ => false end | _ => false end) then None
+  else
+    let mant := digits_val (d1 ++ d2) 0 in
+    let frac := Z.of_nat (length d2) in
+    match s3 with
+    | [] => Some (mknumber neg mant (- frac))
+    | c :: r =>
+      if (c =? 101) || (c =? 69) then
+        let (eneg, r1) := take_sign r in
+        let (de, r2) := take_digits r1 in
+        match de, r2 with
+        | _ :: _, [] => let e := Z.of_N (digits_val de 0) in Some (mknumber neg mant ((if eneg then - e else e) - frac))
+        | _, _ => None
+        end
+      else None
+    end.
+Definition number_eqb (a b : number) : bool :=
+  if (num_mant a =? 0) && (num_mant b =? 0) then true
+  else Bool.eqb (num_neg a) (num_neg b) &&
+       (let e := Z.min (num_exp a) (num_exp b) in
+        (Z.of_N (num_mant a) * 10 ^ (num_exp a - e) =? Z.of_N (num_mant b) * 10 ^ (num_exp b - e))%Z).
+Definition mw_equal (a b : str) : bool :=
+  str_eqb a b || match parse_number a, parse_number b with
+                 | Some x, Some y => number_eqb x y
+                 | _, _ => false
+                 end.
+
 (** * plural: the result string of #expr selects the form *)
 Definition plural_fn (expr_result one many : str) : str :=
   if str_eqb expr_result [49] then one else many.
